@@ -129,6 +129,8 @@ class RenderNode(Node):
             # "with". This distinction is not made when using the 'include' tag.
             if self.loop and isinstance(val, (tuple, list, IterableDrop)):
                 ctx.raise_for_loop_limit(len(val))
+                # `ctx` is private to this tag, no need to restore the carry.
+                ctx.loop_iteration_carry *= max(len(val), 1)
                 forloop = ForLoop(
                     name=key,
                     it=iter(val),
@@ -209,6 +211,8 @@ class RenderNode(Node):
             # "with". This distinction is not made when using the 'include' tag.
             if self.loop and isinstance(val, (tuple, list, IterableDrop)):
                 ctx.raise_for_loop_limit(len(val))
+                # `ctx` is private to this tag, no need to restore the carry.
+                ctx.loop_iteration_carry *= max(len(val), 1)
                 forloop = ForLoop(
                     name=key,
                     it=iter(val),
